@@ -23,11 +23,18 @@ ids, SBT.select on an empty selection returns self.  Hence, for every collection
 * filtering a zip's manifest before loading = filtering the loaded signatures (`pre_post_equiv`);
 * searches stay inside the selection on every container (`search_respects_selection`);
 * picklist value functions are the documented ones; prefix collisions behave as the string functions say.
-What stays false: StandaloneManifestIndex re-reads files by (identifier, md5[:8]) (known finding C12.3,
-`standalone_manifest_collision_counterexample`), so the container-generic `select_conj` is still stated
-per container.  The old variants of the repaired routines are kept as regression examples (`…_old_variant…`).
+One theorem over all containers: `select_exact`, `select_conj`, `select_chain` (section 6a) hold for every container of
+the model, with the exclusions explicit in `Coll.Ok` / `Coll.Compat` — picklist identity where dicts are merged,
+homogeneous SBT leaves, and, for standalone manifests, `SmiExact` / `SqlmfExact`: no deselected signature of a still
+listed file shares (identifier, md5[:8]) with a selected one.  Section 8b proves that this is *exactly* what
+StandaloneManifestIndex needs (`select_exact_standalone_iff`; known finding C12.3 is its failure,
+`standalone_manifest_collision_counterexample`, `standalone_cross_file_collision`).  Section 9: SBT with and without
+manifest, and LCA databases whose `_signatures` cache was filled before the selection (`lca_select_after_cache`).
+Section 8c: a picklist made from the manifest / search / prefetch / gather output of a selection gives that selection back
+iff no such collision (`output_picklist_roundtrip`).  The old variants of the repaired routines are kept as regression
+examples (`…_old_variant…`).
 -/
-import SmVerif.Lemmas.SelectZip
+import SmVerif.Lemmas.SelectGeneric
 
 namespace Sm.C12
 
@@ -278,14 +285,65 @@ theorem select_step_sqlite {all : List (Row × Sig)} {d c : Crit} {z : Coll} (hr
   funext s
   rw [mergeZip_sat s (c2 := c.forSql) hid hm, Sat_forSql hn ha]
 
-/- FULL STATEMENT (not proved / false):
-   theorem select_conj (X : Coll) (c₁ c₂) {y z l l₀} :
-       (X.select c₁).2 = .ok y → (y.select c₂).2 = .ok z → z.signatures = .ok l → X.signatures = .ok l₀ →
-       l = l₀.filter (fun s => Sat c₁ s && Sat c₂ s)
-   false on a StandaloneManifestIndex under an (identifier, md5[:8]) collision (known finding C12.3, section 8) and
-   on SBTs whose leaves are not homogeneous (SBT.select checks its first signature only; section 9 assumes
-   homogeneity).  Proved above for LinearIndex, MultiIndex, LazyLinearIndex, zip with and without manifest (sections
-   5, 6b), SqliteIndex. -/
+/-! ## 6a. one theorem over all containers
+
+`Coll.Ok x`: the container is what the generator builds and what `select` preserves (rows made by `make_manifest_row`,
+stores consistent with their manifests, sketches well-formed, SBT leaves homogeneous, LCA cache computed under a prefix
+of the picklists now held).  `Coll.Compat x c` are the exclusions, made explicit: picklists are objects (equal identity
+= equal picklist) where selection dicts get merged, and a standalone manifest must not — after this request — be able to
+re-read a deselected signature through an (identifier, md5[:8]) collision (`SmiExact` / `SqlmfExact`, known finding
+C12.3).  `SBT.select` looking at its first signature only is covered by the homogeneity in `Ok`.  Listings are compared
+up to permutation (a standalone manifest lists file by file). -/
+
+/-- `select` on any container keeps exactly the signatures satisfying the request (and the result is again well-formed) -/
+theorem select_exact {x y : Coll} {c : Crit} {l₀ l : List Sig} (hok : x.Ok) (hc : x.Compat c)
+    (h : (x.select c).2 = .ok y) (h₀ : x.signatures = .ok l₀) (hl : y.signatures = .ok l) :
+    y.Ok ∧ l.Perm (l₀.filter (Sat c)) := by
+  obtain ⟨hy, hperm⟩ := select_step hok hc h
+  rw [listing_of_signatures hok h₀, listing_of_signatures hy hl]
+  exact ⟨hy, hperm⟩
+
+/-- successive selections act as a conjunction, on every container: whenever both are accepted, what is listed in the end
+    is what was listed at the start, filtered by both requests -/
+theorem select_conj {x y z : Coll} {c₁ c₂ : Crit} {l₀ l : List Sig} (hok : x.Ok)
+    (hc₁ : x.Compat c₁) (h₁ : (x.select c₁).2 = .ok y) (hc₂ : y.Compat c₂) (h₂ : (y.select c₂).2 = .ok z)
+    (h₀ : x.signatures = .ok l₀) (hl : z.signatures = .ok l) :
+    l.Perm (l₀.filter (fun s => Sat c₁ s && Sat c₂ s)) := by
+  obtain ⟨hy, hp₁⟩ := select_step hok hc₁ h₁
+  obtain ⟨hz, hp₂⟩ := select_step hy hc₂ h₂
+  rw [listing_of_signatures hok h₀, listing_of_signatures hz hl]
+  refine hp₂.trans ?_
+  have := hp₁.filter (Sat c₂)
+  rw [List.filter_filter] at this
+  refine this.trans (List.Perm.of_eq ?_)
+  apply List.filter_congr
+  intro s _
+  exact Bool.and_comm _ _
+
+/-- a chain of accepted selections, each outside the exclusions -/
+inductive Chain : Coll → List Crit → Coll → Prop where
+  | nil (x : Coll) : Chain x [] x
+  | cons {x y z : Coll} {c : Crit} {cs : List Crit} :
+      x.Compat c → (x.select c).2 = .ok y → Chain y cs z → Chain x (c :: cs) z
+
+/-- … and so does any chain of accepted selections, of any length -/
+theorem select_chain {x z : Coll} {cs : List Crit} (hok : x.Ok) (h : Chain x cs z) :
+    z.Ok ∧ z.listing.Perm (x.listing.filter (fun s => cs.all (fun c => Sat c s))) := by
+  induction h with
+  | nil x =>
+    refine ⟨hok, List.Perm.of_eq ?_⟩
+    simp only [List.all_nil]
+    exact (List.filter_eq_self.mpr (fun _ _ => rfl)).symm
+  | @cons x y z c cs hcomp hsel _ ih =>
+    obtain ⟨hy, hp⟩ := select_step hok hcomp hsel
+    obtain ⟨hz, hq⟩ := ih hy
+    refine ⟨hz, hq.trans ?_⟩
+    have := hp.filter (fun s => cs.all (fun c => Sat c s))
+    rw [List.filter_filter] at this
+    refine this.trans (List.Perm.of_eq ?_)
+    apply List.filter_congr
+    intro s _
+    simp [List.all_cons, Bool.and_comm]
 
 /-! ## 6b. filtering the manifest before loading = filtering the loaded signatures -/
 
@@ -484,104 +542,190 @@ theorem standalone_manifest_collision_counterexample :
       y.signatures = .ok [colA, colB] ∧ Sat { ksize := .val 21 } colB = false :=
   ⟨_, rfl, rfl, rfl⟩
 
+/-! ## 8b. StandaloneManifestIndex: exactly when re-reading by (identifier, md5[:8]) is the selection -/
+
+/-- a standalone manifest over files holding several signatures each (`SmiOk`): `select` never refuses, and — provided no
+    deselected signature of a file that is still listed shares (identifier, md5[:8]) with a selected one (`SmiExact`) —
+    `signatures()` lists exactly the satisfying signatures (file by file, hence up to permutation) -/
+theorem select_exact_standalone_partial {rs : List (Row × Sig)} {store : Store} (c : Crit) (hok : SmiOk rs store)
+    (hex : SmiExact rs (fun x => Sat c x.2)) :
+    ∃ y l, ((Coll.smi (rs.map (·.1)) store).select c).2 = .ok y ∧ y.signatures = .ok l ∧
+      l.Perm ((rs.map (·.2)).filter (Sat c)) := by
+  have hf : filterE (fun a : Row × Sig => rowPasses a.1 c) rs = .ok (rs.filter (fun x => Sat c x.2)) := by
+    apply filterE_ok_of_forall
+    intro x hx
+    rw [hok.rows x hx]
+    exact rowPasses_total x.2 c _
+  obtain ⟨l, hl, hperm⟩ := smi_signatures_exact hok _ hex
+  refine ⟨_, l, ?_, hl, ?_⟩
+  · simp only [Coll.select]
+    rw [filterE_map, hf]
+  · rw [List.filter_map]
+    exact hperm
+
+/-- whatever the collisions, nothing satisfying is lost … -/
+theorem standalone_complete {rs : List (Row × Sig)} {store : Store} (c : Crit) (hok : SmiOk rs store) {l : List Sig}
+    (hl : (Coll.smi ((rs.filter (fun x => Sat c x.2)).map (·.1)) store).signatures = .ok l) :
+    ∀ t ∈ rs, Sat c t.2 = true → t.2 ∈ l := by
+  intro t ht hs
+  have hmem : t ∈ rs.filter (fun x => Sat c x.2) := List.mem_filter.mpr ⟨ht, hs⟩
+  refine (smi_mem_signatures hok _ hl t.2).mpr ⟨t, ht, rfl, ?_, ?_⟩
+  · simp only [listed, List.any_eq_true, beq_iff_eq]; exact ⟨t, hmem, rfl⟩
+  · simp only [keyIn, List.any_eq_true, beq_iff_eq]; exact ⟨t, hmem, rfl⟩
+
+/-- … and `SmiExact` is exactly what is needed for nothing unsatisfying to come back: every listed signature satisfies
+    the request iff no deselected signature of a listed file shares its key with a selected one -/
+theorem select_exact_standalone_iff {rs : List (Row × Sig)} {store : Store} (c : Crit) (hok : SmiOk rs store)
+    {l : List Sig} (hl : (Coll.smi ((rs.filter (fun x => Sat c x.2)).map (·.1)) store).signatures = .ok l) :
+    (∀ s ∈ l, Sat c s = true) ↔ SmiExact rs (fun x => Sat c x.2) := by
+  constructor
+  · exact smi_exact_of_sound hok (Sat c) hl
+  · intro hex s hs
+    obtain ⟨l', hl', hperm⟩ := smi_signatures_exact hok _ hex
+    rw [hl] at hl'
+    injection hl' with hl'
+    subst hl'
+    obtain ⟨x, hx, rfl⟩ := List.mem_map.mp (hperm.mem_iff.mp hs)
+    exact (List.mem_filter.mp hx).2
+
+/-- sufficient: no two rows of the *whole* manifest share (identifier, md5[:8]) -/
+theorem standalone_exact_of_distinct_keys {rs : List (Row × Sig)} (c : Crit)
+    (hd : ∀ t ∈ rs, ∀ u ∈ rs, keyOf t.2 = keyOf u.2 → t = u) : SmiExact rs (fun x => Sat c x.2) :=
+  smiExact_of_distinct_keys _ hd
+
+/-- *not* sufficient: distinct keys within every single file.  The picklist made from the manifest is global, so a
+    deselected signature comes back when it shares its key with a selected signature of *another* file, as soon as its own
+    file is listed for some other selected row (kernel-checked: `select(ksize=21)` returns the k=31 sketch `colB`) -/
+def colC : Sig :=
+  { ksize := 21, mol := .DNA, num := 0, scaled := 1000, abund := false, name := ['H', ' ', '3'],
+    md5 := ['c', 'c', 'c', 'c', 'c', 'c', 'c', 'c', 'c'], hashes := [3] }
+
+theorem standalone_cross_file_collision :
+    let rs := [(mkRow colC 0, colC), (mkRow colB 0, colB), (mkRow colA 1, colA)]
+    let store : Store := [(0, [colC, colB]), (1, [colA])]
+    SmiOk rs store ∧ keyOf colC ≠ keyOf colB ∧ keyOf colA = keyOf colB ∧
+      ∃ y, ((Coll.smi (rs.map (·.1)) store).select { ksize := .val 21 }).2 = .ok y ∧
+        y.signatures = .ok [colC, colB, colA] ∧ Sat { ksize := .val 21 } colB = false := by
+  refine ⟨⟨?_, ?_⟩, by decide, rfl, _, rfl, rfl, rfl⟩
+  · intro x hx
+    simp only [List.mem_cons, List.not_mem_nil, or_false] at hx
+    rcases hx with rfl | rfl | rfl <;> rfl
+  · intro loc
+    by_cases h0 : loc = 0
+    · subst h0; rfl
+    · by_cases h1 : loc = 1
+      · subst h1; rfl
+      · have e0 : ((0 : Nat) == loc) = false := by simp; omega
+        have e1 : ((1 : Nat) == loc) = false := by simp; omega
+        simp [Store.load, List.find?, mkRow, e0, e1]
+
+/-- the SQLite flavour (`load_sqlite_index` on a manifest-only database): files are listed by the SQL `WHERE` alone
+    (`locations()` ignores the picklist), so the exclusion `SqlmfExact` quantifies over those -/
+theorem select_exact_sqlite_manifest_partial {rs : List (Row × Sig)} {store : Store} {c : Crit} {y : Coll}
+    (hok : SmiOk rs store) (hwf : ∀ x ∈ rs, WF x.2) (hex : SqlmfExact rs c)
+    (h : ((Coll.sqlmf (rs.map (·.1)) {} store).select c).2 = .ok y) :
+    ∃ l, y.signatures = .ok l ∧ l.Perm ((rs.map (·.2)).filter (Sat c)) := by
+  obtain ⟨d', hm, rfl⟩ := sqlmf_select h
+  rw [mergeZip_empty] at hm
+  injection hm with hm
+  subst hm
+  exact sqlmf_signatures_exact _ hok hwf hex
+
+/-! ## 8c. picklists made from the output of a selection (manifest / search / prefetch / gather CSVs) -/
+
+/-- the picklist `--picklist out.csv::<coltype>` loads from the (name, md5) rows the sketches `l` produce in a manifest,
+    search, prefetch or gather CSV -/
+def outputPicklist (id : Nat) (ct : Coltype) (exclude : Bool) (l : List Sig) : Picklist :=
+  { id := id, coltype := ct, exclude := exclude, pickset := loadPickset ct (l.map (fun s => PVal.p s.name s.md5)) }
+
+/-- it matches exactly the signatures sharing (identifier, md5[:8]) with one of `l` -/
+theorem output_picklist_matches {ct : Coltype} (hct : ct.isMeta = true) (id : Nat) (l : List Sig) (s : Sig) :
+    (outputPicklist id ct false l).hasSig s = true ↔ ∃ t ∈ l, keyOf t = keyOf s := by
+  rw [hasSig_meta hct _ rfl]
+  simp only [outputPicklist, Picklist.decide, Bool.false_eq_true, if_false, List.contains_iff_mem]
+  exact loadPickset_meta hct l (keyOf s)
+
+theorem output_picklist_exclude {ct : Coltype} (hct : ct.isMeta = true) (id : Nat) (l : List Sig) (s : Sig) :
+    (outputPicklist id ct true l).hasSig s = !(outputPicklist id ct false l).hasSig s := by
+  rw [hasSig_meta hct _ rfl, hasSig_meta hct _ rfl]
+  simp [outputPicklist, Picklist.decide]
+
+theorem filter_eq_filter_iff {α : Type} (p q : α → Bool) (l : List α) :
+    l.filter p = l.filter q ↔ ∀ x ∈ l, p x = q x := by
+  constructor
+  · intro h x hx
+    have h1 : x ∈ l.filter p ↔ x ∈ l.filter q := by rw [h]
+    simp only [List.mem_filter, hx, true_and] at h1
+    cases hp : p x <;> cases hq : q x <;> simp_all
+  · exact fun h => List.filter_congr h
+
+/-- round trip: a picklist built from the output of the selection `X = l₀.filter P` of a collection listing `l₀`, applied
+    to that collection, selects exactly `X` — iff no deselected signature of the collection shares (identifier, md5[:8]) with
+    a selected one (the C12.3-type collision, here for every column type taken from sourmash output) -/
+theorem output_picklist_roundtrip {ct : Coltype} (hct : ct.isMeta = true) (id : Nat) (l₀ : List Sig) (P : Sig → Bool) :
+    l₀.filter (outputPicklist id ct false (l₀.filter P)).hasSig = l₀.filter P ↔
+      ∀ s ∈ l₀, (∃ t ∈ l₀.filter P, keyOf t = keyOf s) → P s = true := by
+  rw [filter_eq_filter_iff]
+  constructor
+  · intro h s hs hex
+    rw [← h s hs]
+    exact (output_picklist_matches hct id _ s).mpr hex
+  · intro h s hs
+    cases hp : P s with
+    | true => exact (output_picklist_matches hct id _ s).mpr ⟨s, List.mem_filter.mpr ⟨hs, hp⟩, rfl⟩
+    | false =>
+      cases hm : (outputPicklist id ct false (l₀.filter P)).hasSig s with
+      | false => rfl
+      | true => rw [h s hs ((output_picklist_matches hct id _ s).mp hm)] at hp; cases hp
+
+/-- … and with `:exclude` it selects exactly the complement, under the same condition -/
+theorem output_picklist_roundtrip_exclude {ct : Coltype} (hct : ct.isMeta = true) (id : Nat) (l₀ : List Sig)
+    (P : Sig → Bool) (h : ∀ s ∈ l₀, (∃ t ∈ l₀.filter P, keyOf t = keyOf s) → P s = true) :
+    l₀.filter (outputPicklist id ct true (l₀.filter P)).hasSig = l₀.filter (fun s => !P s) := by
+  have := (filter_eq_filter_iff _ _ _).mp ((output_picklist_roundtrip hct id l₀ P).mpr h)
+  apply List.filter_congr
+  intro s hs
+  rw [output_picklist_exclude hct, this s hs]
+
+/-- through a container: selecting a LinearIndex with the picklist made from one of its selections gives that selection
+    back (signatures whose keys are pairwise distinct) -/
+theorem output_picklist_select_linear {ct : Coltype} (hct : ct.isMeta = true) (id : Nat) {sigs : List Sig} {c : Crit}
+    {y : Coll} (hwf : ∀ s ∈ sigs, WF s) (hd : ∀ s ∈ sigs, ∀ t ∈ sigs, keyOf s = keyOf t → s = t)
+    (h : ((Coll.linear sigs).select { picklist := some (outputPicklist id ct false (sigs.filter (Sat c))) }).2 = .ok y) :
+    y.signatures = .ok (sigs.filter (Sat c)) := by
+  obtain ⟨_, hy⟩ := select_exact_linear hwf h
+  rw [hy]
+  congr 1
+  have hsat : ∀ s, Sat { picklist := some (outputPicklist id ct false (sigs.filter (Sat c))) } s
+      = (outputPicklist id ct false (sigs.filter (Sat c))).hasSig s := fun s => Sat_only_picklist _ s
+  rw [List.filter_congr (fun s _ => hsat s)]
+  apply (output_picklist_roundtrip hct id sigs (Sat c)).mpr
+  rintro s hs ⟨t, ht, hk⟩
+  have ht' := List.mem_filter.mp ht
+  rw [← hd t ht'.1 s hs hk]
+  exact ht'.2
+
 /-! ## 9. SBT and LCA databases: in-place picklists, refusal on everything else -/
 
-/-- all leaves share the indexing parameters (what `sourmash index` enforces) -/
-def Homogeneous (leaves : List Sig) : Prop :=
-  ∀ s ∈ leaves, ∀ t ∈ leaves, s.ksize = t.ksize ∧ s.mol = t.mol ∧ s.num = t.num ∧ s.scaled = t.scaled
-
-theorem sbtChecks_sound {first : Sig} {c : Crit} (hwf : WF first) (h : sbtChecks first c = .ok ()) :
-    satCore c first = true ∧ c.abundReq = false := by
-  unfold sbtChecks at h
-  have hr : sbtRefuses first c = false := by
-    cases hq : sbtRefuses first c
-    · rfl
-    · rw [hq] at h; cases h
-  clear h
-  unfold sbtRefuses at hr
-  unfold satCore Crit.ksizeBad Crit.molBad Crit.abundReq Crit.cont Crit.scaledV Crit.numV
-  unfold WF at hwf
-  rcases c with ⟨ks, mt, sc, nm, ab, ct, pl⟩
-  simp only [Bool.or_eq_false_iff] at hr
-  obtain ⟨⟨⟨⟨⟨h1, h2⟩, h3⟩, h4⟩, h5⟩, h6⟩ := hr
-  cases ks <;> cases mt <;> rcases ab with _ | _ | (_ | _) <;> simp_all
-  all_goals (
-    cases hc : ct.getD false <;> simp_all <;>
-    by_cases e1 : sc.getD 0 = 0 <;> by_cases e2 : first.scaled = 0 <;> by_cases e3 : first.num = 0 <;>
-    by_cases e4 : nm.getD 0 = 0 <;> simp_all <;> omega)
-
-theorem passesAll_append (a b : List Picklist) (s : Sig) :
-    passesAll (a ++ b) s = (passesAll a s && passesAll b s) := by
-  simp [passesAll, List.all_append]
-
-/-- an SBT that accepts a selection (it answers `self`): its signatures are the leaves passing the stored
-    picklists, and — the tree being homogeneous — every one of them satisfies the request; a tree whose selection is
-    already empty accepts everything and stays empty -/
+/-- an SBT that accepts a selection (it answers `self`): what it then lists is what it listed, filtered by the request
+    — the tree being homogeneous (`SBT.select` checks its first signature only); a tree whose selection is already empty
+    accepts everything and stays empty -/
 theorem sbt_select_sound {leaves : List Sig} {pls : List Picklist} {c : Crit} {y : Coll}
-    (hwf : ∀ s ∈ leaves, WF s) (hh : Homogeneous leaves)
-    (h : ((Coll.sbt leaves pls).select c).2 = .ok y) :
-    ∃ l, y.signatures = .ok l ∧ (∀ s ∈ l, s ∈ leaves ∧ Sat c s = true) ∧
-      l = leaves.filter (passesAll (pls ++ c.picklist.toList)) := by
-  simp only [Coll.select] at h
-  cases hf : leaves.filter (passesAll pls) with
-  | nil =>
-    simp only [hf] at h
-    injection h with h
-    subst h
-    refine ⟨[], ?_, by simp, ?_⟩
-    · simp only [Coll.signatures, hf]
-    · symm
-      rw [List.filter_eq_nil_iff]
-      intro s hs
-      have : passesAll pls s = false := by
-        have := List.filter_eq_nil_iff.mp hf s hs
-        simpa using this
-      rw [passesAll_append, this]
-      simp
-  | cons first rest =>
-    simp only [hf] at h
-    have hfirst : first ∈ leaves := (List.mem_filter.mp (hf ▸ List.mem_cons_self ..)).1
-    cases hc : sbtChecks first c with
-    | error e => simp [hc] at h
-    | ok u =>
-      simp only [hc] at h
-      have hcore : ∀ s ∈ leaves, satCore c s = true := by
-        intro s hs
-        obtain ⟨this, hab⟩ := sbtChecks_sound (hwf first hfirst) hc
-        obtain ⟨a, b, c', d⟩ := hh s hs first hfirst
-        unfold satCore at this ⊢
-        rw [a, b, c', d]
-        simp only [hab] at this ⊢
-        simpa using this
-      cases hp : c.picklist with
-      | none =>
-        simp only [hp] at h
-        injection h with h
-        subst h
-        refine ⟨_, rfl, ?_, by simp⟩
-        intro s hs
-        have hs' := List.mem_filter.mp hs
-        refine ⟨hs'.1, ?_⟩
-        rw [Sat_eq, hcore s hs'.1]
-        simp [plOk, hp]
-      | some pl =>
-        simp only [hp] at h
-        split at h
-        · cases h
-        · rename_i hlen
-          injection h with h
-          subst h
-          have hnil : pls = [] := by
-            cases pls with
-            | nil => rfl
-            | cons a t => simp at hlen
-          subst hnil
-          refine ⟨_, rfl, ?_, by simp⟩
-          intro s hs
-          have hs' := List.mem_filter.mp hs
-          refine ⟨hs'.1, ?_⟩
-          rw [Sat_eq, hcore s hs'.1]
-          simpa [plOk, hp, passesAll] using hs'.2
+    (hwf : ∀ s ∈ leaves, WF s) (hh : Homogeneous leaves) (h : ((Coll.sbt leaves pls).select c).2 = .ok y) :
+    ∃ pls', y = .sbt leaves pls' ∧
+      y.signatures = .ok ((leaves.filter (passesAll pls)).filter (Sat c)) := by
+  obtain ⟨pls', rfl, hshape⟩ := sbt_select_shape h
+  refine ⟨pls', rfl, ?_⟩
+  simp only [Coll.signatures]
+  rw [tree_select_shape hwf hh _ rfl pls' hshape]
+
+/-- the same for an SBT reloaded from its zip, which lists through its manifest -/
+theorem sbt_manifest_select_sound {rs : List (Row × Sig)} {pls : List Picklist} {c : Crit} {y : Coll} (hz : ZipOk rs)
+    (hwf : ∀ s ∈ rs.map (·.2), WF s) (hh : Homogeneous (rs.map (·.2)))
+    (h : ((Coll.sbtM (rs.map (·.1)) (storeOf rs) (rs.map (·.2)) pls).select c).2 = .ok y) :
+    y.signatures = .ok (((rs.map (·.2)).filter (passesAll pls)).filter (Sat c)) := by
+  obtain ⟨pls', rfl, hshape⟩ := sbtM_select_shape (sbtM_signatures hz pls) h
+  rw [sbtM_signatures hz, tree_select_shape hwf hh _ rfl pls' hshape]
 
 /-- regression (fix f20102b, known finding C12.4): `SBT.select` on a tree whose picklist leaves no signature used to
     raise StopIteration; it now returns the (empty) selection -/
@@ -589,66 +733,58 @@ theorem sbt_select_empty_selection :
     ∃ y, ((Coll.sbt [unnamedSig] [namePicklist]).select { ksize := .val 31 }).2 = .ok y ∧ y.signatures = .ok [] :=
   ⟨_, rfl, rfl⟩
 
-theorem lcaChecks_sound {k sc : Nat} {m : Mol} {c : Crit} {s : Sig} (hk : s.ksize = k) (hm : s.mol = m)
-    (hs : s.scaled ≠ 0) (hn : s.num = 0) (h : lcaChecks k m sc c = .ok ()) : satCore c s = true := by
-  unfold lcaChecks at h
-  have hr : lcaRefuses k m sc c = false := by
-    cases hq : lcaRefuses k m sc c
-    · rfl
-    · rw [hq] at h; cases h
-  clear h
-  unfold lcaRefuses at hr
-  unfold satCore Crit.ksizeBad Crit.molBad Crit.abundReq Crit.cont Crit.scaledV Crit.numV
-  rcases c with ⟨ks, mt, scl, nm, ab, ct, pl⟩
-  simp only [Bool.or_eq_false_iff] at hr
-  obtain ⟨⟨⟨⟨h1, h2⟩, h3⟩, h4⟩, h5⟩ := hr
-  subst hk hm
-  cases ks <;> cases mt <;> rcases ab with _ | _ | (_ | _) <;> simp_all
+/-- an LCA database (its sketches all have the database's ksize / molecule type and are scaled, by construction of
+    `insert`) that accepts a selection lists what it listed, filtered by the request — **whether or not an earlier
+    iteration or search left a `_signatures` cache behind** (`select` does not invalidate the cache; `signatures()` and
+    `find` re-apply the picklists held now to the cached sketches) -/
+theorem lca_select_after_cache {k sc : Nat} {m : Mol} {sigs : List Sig} {pls : List Picklist}
+    {cache : Option (List Sig)} {c : Crit} {y : Coll}
+    (hdb : ∀ s ∈ sigs, s.ksize = k ∧ s.mol = m ∧ s.scaled ≠ 0 ∧ s.num = 0) (hcache : CacheOk sigs pls cache)
+    (h : (((Coll.lca k m sc sigs pls cache).touch).select c).2 = .ok y) :
+    y.signatures = .ok ((sigs.filter (passesAll pls)).filter (Sat c)) ∧
+      ∀ q, y.find q = .ok (((sigs.filter (passesAll pls)).filter (Sat c)).filter (overlaps q)) := by
+  simp only [Coll.touch] at h
+  have hcache' := cacheOk_touch hcache
+  obtain ⟨hchk, rfl⟩ := lca_select_shape h
+  have hcore : ∀ s ∈ sigs.filter (passesAll pls), satCore c s = true := by
+    intro s hs
+    have hs' := (List.mem_filter.mp hs).1
+    exact lcaChecks_sound (hdb s hs').1 (hdb s hs').2.1 (hdb s hs').2.2.1 (hdb s hs').2.2.2 hchk
+  have hlist : (lcaCached sigs (pls ++ c.picklist.toList) (some (lcaCached sigs pls cache))).filter
+      (passesAll (pls ++ c.picklist.toList)) = (sigs.filter (passesAll pls)).filter (Sat c) := by
+    rw [lcaCached_filter (cacheOk_append _ hcache'), filter_step sigs pls c hcore]
+  refine ⟨by simp only [Coll.signatures, hlist], ?_⟩
+  intro q
+  simp only [Coll.find]
+  congr 1
+  rw [← hlist, List.filter_filter, List.filter_filter]
+  apply List.filter_congr
+  intro s _
+  exact Bool.and_comm _ _
 
-/-- an LCA database that accepts a selection (it answers `self`): its signatures are the stored sketches passing
-    the picklists, and every one of them satisfies the request (the stored sketches all have the database's
-    ksize / molecule type and are scaled, by construction of `insert`) -/
-theorem lca_select_sound {k sc : Nat} {m : Mol} {sigs : List Sig} {pls : List Picklist} {c : Crit} {y : Coll}
-    (hdb : ∀ s ∈ sigs, s.ksize = k ∧ s.mol = m ∧ s.scaled ≠ 0 ∧ s.num = 0)
-    (h : ((Coll.lca k m sc sigs pls).select c).2 = .ok y) :
-    ∃ l, y.signatures = .ok l ∧ (∀ s ∈ l, s ∈ sigs ∧ Sat c s = true) ∧
-      l = sigs.filter (passesAll (pls ++ c.picklist.toList)) := by
-  simp only [Coll.select] at h
-  cases hc : lcaChecks k m sc c with
-  | error e => simp [hc] at h
-  | ok u =>
-    simp only [hc] at h
-    have hcore : ∀ s ∈ sigs, satCore c s = true := fun s hs =>
-      lcaChecks_sound (hdb s hs).1 (hdb s hs).2.1 (hdb s hs).2.2.1 (hdb s hs).2.2.2 hc
-    cases hp : c.picklist with
-    | none =>
-      simp only [hp] at h
-      injection h with h
-      subst h
-      refine ⟨_, rfl, ?_, by simp⟩
-      intro s hs
-      have hs' := List.mem_filter.mp hs
-      refine ⟨hs'.1, ?_⟩
-      rw [Sat_eq, hcore s hs'.1]
-      simp [plOk, hp]
-    | some pl =>
-      simp only [hp] at h
-      split at h
-      · cases h
-      · rename_i hlen
-        injection h with h
-        subst h
-        have hnil : pls = [] := by
-          cases pls with
-          | nil => rfl
-          | cons a t => simp at hlen
-        subst hnil
-        refine ⟨_, rfl, ?_, by simp⟩
-        intro s hs
-        have hs' := List.mem_filter.mp hs
-        refine ⟨hs'.1, ?_⟩
-        rw [Sat_eq, hcore s hs'.1]
-        simpa [plOk, hp, passesAll] using hs'.2
+theorem lca_select_sound {k sc : Nat} {m : Mol} {sigs : List Sig} {pls : List Picklist} {cache : Option (List Sig)}
+    {c : Crit} {y : Coll}
+    (hdb : ∀ s ∈ sigs, s.ksize = k ∧ s.mol = m ∧ s.scaled ≠ 0 ∧ s.num = 0) (hcache : CacheOk sigs pls cache)
+    (h : ((Coll.lca k m sc sigs pls cache).select c).2 = .ok y) :
+    y.signatures = .ok ((sigs.filter (passesAll pls)).filter (Sat c)) := by
+  obtain ⟨hchk, rfl⟩ := lca_select_shape h
+  simp only [Coll.signatures]
+  rw [lcaCached_filter (cacheOk_append _ hcache)]
+  congr 1
+  apply filter_step
+  intro s hs
+  have hs' := (List.mem_filter.mp hs).1
+  exact lcaChecks_sound (hdb s hs').1 (hdb s hs').2.1 (hdb s hs').2.2.1 (hdb s hs').2.2.2 hchk
+
+/-- iterate, then select with a picklist, then iterate again: only the picked sketch is listed (the variant that yields the
+    cached sketches unfiltered would list both) -/
+theorem lca_cache_regression :
+    let db := (Coll.lca 31 .DNA 1000 [unnamedSig, flatSig] [] none).touch
+    let pl : Picklist := { id := 2, coltype := .name, exclude := false, pickset := [.s ['f']] }
+    db.signatures = .ok [unnamedSig, flatSig] ∧
+      ∃ y, (db.select { picklist := some pl }).2 = .ok y ∧ y.signatures = .ok [flatSig] ∧
+        lcaCached [unnamedSig, flatSig] [pl] (some [unnamedSig, flatSig]) = [unnamedSig, flatSig] :=
+  ⟨rfl, _, rfl, rfl, rfl⟩
 
 /-! ## 10. the picklist tables are the documented ones -/
 
@@ -694,6 +830,28 @@ example :
   intro x hx
   simp only [List.mem_cons, List.not_mem_nil, or_false] at hx
   rcases hx with rfl | rfl <;> rfl
+
+/-- the generic theorems are not vacuous: a well-formed MultiIndex, a two-step chain outside the exclusions, its result -/
+example :
+    let x := Coll.multi [(mkRow dnaA 0, dnaA), (mkRow protB 1, protB), (mkRow numSketch1000 2, numSketch1000)]
+    x.Ok ∧ ∃ y z, Chain x [{ scaled := some 1000 }, { moltype := .val .DNA }] z ∧
+      (x.select { scaled := some 1000 }).2 = .ok y ∧ z.signatures = .ok [dnaA] := by
+  refine ⟨?_, _, _, Chain.cons trivial rfl (Chain.cons trivial rfl (Chain.nil _)), rfl, rfl⟩
+  intro rs hrs
+  simp only [List.mem_cons, List.not_mem_nil, or_false] at hrs
+  rcases hrs with rfl | rfl | rfl <;> exact ⟨_, rfl⟩
+
+/-- a standalone manifest over two files, distinct keys: `SmiExact` holds and the selection is exact -/
+example :
+    let rs := [(mkRow dnaA 0, dnaA), (mkRow protB 0, protB), (mkRow colC 1, colC)]
+    SmiExact rs (fun x => Sat { moltype := .val .DNA } x.2) ∧
+      ∃ y, ((Coll.smi (rs.map (·.1)) [(0, [dnaA, protB]), (1, [colC])]).select { moltype := .val .DNA }).2 = .ok y ∧
+        y.signatures = .ok [dnaA, colC] := by
+  refine ⟨?_, _, rfl, rfl⟩
+  apply smiExact_of_distinct_keys
+  intro t ht u hu hk
+  simp only [List.mem_cons, List.not_mem_nil, or_false] at ht hu
+  rcases ht with rfl | rfl | rfl <;> rcases hu with rfl | rfl | rfl <;> first | rfl | (exact absurd hk (by decide))
 
 /-- the refusal of the reference predicate is reachable -/
 example : selectSignature dnaA { containment := some true } = .error .value := rfl
